@@ -1166,7 +1166,12 @@ func (in *Interp) instrs(st *State, b, pred *ssa.BasicBlock, idx int, k kont) {
 				in.set(st, ins, Expr{Op: fmt.Sprintf("extract#%d", ins.Index), Args: []AV{in.val(st, ins.Tuple)}})
 			}
 		case *ssa.MakeSlice:
-			in.set(st, ins, NonNil{"makeslice"})
+			// make([]T, 0, n): an empty slice whose contents are then fully determined by the appends
+			if n, ok := asInt(in.val(st, ins.Len)); ok && n == 0 {
+				in.set(st, ins, SliceV{})
+			} else {
+				in.set(st, ins, NonNil{"makeslice"})
+			}
 		case *ssa.MakeMap:
 			r := st.alloc(&Obj{T: ins.Type(), Kind: 'm', Site: "makemap", Val: NonNil{"map"}})
 			in.set(st, ins, r)
